@@ -19,7 +19,9 @@ gaps, junk, stale/saturated vsize, zero-length attributes, ABSENT styles, 3 form
 variables with data; chunk sizes 36,40,64,128,4096,default through hook H1, 1-3 ranks,
 romio_no_indep_rw on/off, collective and independent reads; an exhaustive sweep of all chunk sizes /
 all shifts of one fixed header across the chunk boundaries; >= 600 KiB headers with the genuine
-256 KiB chunk (thorough).  ORACLE: every inquiry and every data read equals the generator's ground
+256 KiB chunk (thorough).  a targeted family for the single-record-variable record-size rule (every type x 1..5 elements per
+record x 0-2 fixed variables x 2-4 records), every record also read SEPARATELY (get_vara).
+ORACLE: every inquiry (incl. ncmpi_inq_recsize) and every data read equals the generator's ground
 truth (which never looks at the model).  Static ties: source patterns and constants the model
 depends on (tools/c04_lib.static_ties)."""
 import os, sys, json, time
@@ -102,6 +104,13 @@ def run(ctx):
             add_case('g%d_%d' % (fmt, glen), 64, kind='sweep-shift')
             if thorough:
                 add_case('g%d_%d' % (fmt, glen), 36, kind='sweep-shift')
+    # E. the open-time record-size rule: exactly one record variable x every type x 1..5 elements per
+    #    record x 0..2 fixed variables x 2..4 records x 3 formats (+ the two-record-variable control);
+    #    ncmpi_inq_recsize and every record read separately (get_vara, start[0]=r) are compared
+    rr = ctx.rng.fork('recsize-family')
+    for name, f in G.recsize_family(rr, full=thorough):
+        add_file(name, f, f.encode(rr))
+        add_case(name, 64, kind='recsize')
     # D. headers of >= 600 KiB: several genuine 256 KiB chunks (thorough)
     if thorough:
         for fmt in (1, 2, 5):
